@@ -194,8 +194,8 @@ Section Css.
     | Some _ => single_theme_rulesets h id ov
     end.
 
-  (* which of the two Check.v ties to the code: false = pinned d2, true once fix.patch is applied *)
-  Definition unknown_id_fix_applied : bool := false.
+  (* which of the two Check.v ties to the code: false = d2 before b068ef37f, true = with coq/C31/fix.patch (b068ef37f and later) *)
+  Definition unknown_id_fix_applied : bool := true.
   Definition str_impl := if unknown_id_fix_applied then single_theme_rulesets_fixed else single_theme_rulesets.
 
   (* ThemeCSS *)
